@@ -15,7 +15,9 @@ def run(ctx):
         # one deviation, including the "long preemption" (the default actor is descheduled until nothing else can run), under
         # process-priority policies as well; two deviations under FIFO in the thorough tier
         {"scens": two, "policies": ("FIFO", "LIFO", "JOBS") + wcat.POL_PROC, "bound": 1, "demote": True, "cap": 60000},
-        *([] if q else [{"scens": two, "policies": ("FIFO",), "bound": 2, "demote": True, "cap": 600000}]),
+        *([] if q else [{"scens": two, "policies": ("FIFO",), "bound": 2, "cap": 600000},
+                        # two long preemptions (and nothing else) around every process-priority policy
+                        {"scens": two, "policies": ("FIFO", "LIFO") + wcat.POL_PROC, "bound": 2, "demote": "only", "cap": 200000}]),
         # thorough: two deviations at most 15 scheduling steps apart under LIFO as well
         *([] if q else [{"scens": two, "policies": ("LIFO",), "bound": 2, "window": 15, "demote": True, "cap": 400000}]),
         # scheduler killed while its jobs hold tokens; the restarted scheduler must reclaim them (TokenFile.watch)
